@@ -883,7 +883,8 @@ def get_padded_choices(
 
     substitutions = {}
     for s in replace_order:
-        if s not in formula.free_symbols:
+        # A constant formula (plain int/float) has no free symbols.
+        if s not in getattr(formula, "free_symbols", ()):
             continue
         # Need to find another symbol to substitute here
         diff = diff_geq_leq_zero(formula, s, what_tiles_symbol.bounds)
